@@ -13,11 +13,11 @@ import (
 
 // result of running the implementation on one case
 type implResult struct {
-	obs    string     // canonical observation (model syntax)
-	orig   *sfnt.Font // the font Subset was called on
-	sub    *sfnt.Font // nil after a panic
-	subCFF *cff.Outlines
-	paniced bool
+	obs      string     // canonical observation (model syntax)
+	orig     *sfnt.Font // the font Subset was called on
+	sub      *sfnt.Font // nil after a panic
+	subCFF   *cff.Outlines
+	paniced  bool
 	panicMsg string
 }
 
